@@ -52,6 +52,9 @@ type c11case struct {
 	Small  bool    `json:"small"`
 	Data   uint64  `json:"dataseed"`
 	Ops    []c11op `json:"ops"`
+	// Ragged: the frame is built with frame.Values over columns of unequal capacity (column 0 has
+	// room for 3 more rows than the others); all of that room lies in storage the monitor owns
+	Ragged bool `json:"ragged,omitempty"`
 }
 
 type c11state struct {
@@ -422,7 +425,22 @@ func runC11case(t *vf.T, c c11case) {
 	sc := frameSchemas[c.Schema]
 	s := &c11state{t: t, ts: sc.types(), rnd: vf.NewRand(c.Data), small: c.Small, maxKey: sc.MaxKey}
 	st := s.newStore(c.Cap)
-	base := frame.Values(st.cols).Prefixed(c.Prefix)
+	fcols := st.cols
+	if c.Ragged {
+		// three more rows of storage in every column; column 0 is handed to the frame with that
+		// room as spare capacity, the others with none: the frame's capacity is the smallest
+		// column's, and the rows behind it belong to no view
+		st = s.newStore(c.Cap + 3)
+		fcols = make([]reflect.Value, len(st.cols))
+		for i, col := range st.cols {
+			if i == 0 {
+				fcols[i] = col.Slice3(0, c.Cap, c.Cap+3)
+			} else {
+				fcols[i] = col.Slice3(0, c.Cap, c.Cap)
+			}
+		}
+	}
+	base := frame.Values(fcols).Prefixed(c.Prefix)
 	root := &mview{st: st, off: 0, len: c.Cap, cap: c.Cap, prefix: c.Prefix, f: base}
 	s.views = append(s.views, root)
 	if c.Off != 0 || c.Len != c.Cap {
@@ -465,6 +483,13 @@ var c11opNames = []string{"slice", "prefixed", "grow", "ensure", "copy", "append
 func runC11(r *vf.Runner) {
 	run := func(c c11case) {
 		r.Case(c, func(t *vf.T) { runC11case(t, c) })
+		if len(frameSchemas[c.Schema].Cols) > 1 && (c.Cap <= 3 || !r.Quick()) {
+			c.Ragged = true
+			r.Case(c, func(t *vf.T) {
+				runC11case(t, c)
+				t.Count("frames_over_columns_of_unequal_capacity", 1)
+			})
+		}
 	}
 	maxCap := 5
 	if !r.Quick() {
